@@ -53,6 +53,27 @@ def build (srcs : List σ) : Option (It σ) :=
   | [s] => some (.leaf s)
   | _ => (reduce srcs.length (srcs.map It.leaf)).head?
 
+/-! ## the order of the sources (since /repo f086c95: tag-line order)
+
+`srcs` is a Go map from tag line to journal; `newCursor` collects its keys, sorts them with
+`sort.Slice(lines, func(i, j) bool { return lines[i] < lines[j] })` (Go string order = `Go.bytesLt`) and fills `mxs` in that
+order. Keys of a map are distinct, so every correct sort gives the same list; it is modelled as an insertion sort.
+`sorts` is the regenerated fact that the code does this (`false` = the old code: map iteration order as it comes). -/
+
+def insertLine {α : Type} (x : Bytes × α) : List (Bytes × α) → List (Bytes × α)
+  | [] => [x]
+  | y :: ys => if Go.bytesLe x.1 y.1 then x :: y :: ys else y :: insertLine x ys
+
+def sortLines {α : Type} (l : List (Bytes × α)) : List (Bytes × α) := l.foldr insertLine []
+
+/-- the slice `mxs` before the reduction, for the map entries in iteration order `mapOrder` -/
+def sourceOrder {α : Type} (sorts : Bool) (mapOrder : List (Bytes × α)) : List α :=
+  ((if sorts then sortLines mapOrder else mapOrder).map (·.2))
+
+/-- `newCursor`'s iterator for a map `srcs` iterated in `mapOrder` -/
+def buildFromMap (sorts : Bool) (mapOrder : List (Bytes × σ)) : Option (It σ) :=
+  build (sourceOrder sorts mapOrder)
+
 /-! ## GetJournals -/
 
 /-- an entry of the tag index: tag-line identity (key of `tmap`), journal name identity -/
